@@ -220,31 +220,33 @@ fn pop_call_info_for_line(
     recursive: bool,
 ) -> Option<CallInfo> {
     let line_context_name = get_line_context_name(state);
-    let forin_state = get_core_sub_state_for_command(state, FORIN_STATE_KEY.to_string());
-    let call_info_stack = get_list(CALL_STACK_STATE_KEY.to_string(), forin_state);
 
-    match call_info_stack.pop() {
-        Some(state_value) => match state_value {
-            StateValue::SubState(mut call_info_state) => {
-                match deserialize_call_info(&mut call_info_state) {
-                    Some(call_info) => {
-                        if (call_info.meta_info.start == line || call_info.meta_info.end == line)
-                            && call_info.line_context_name == line_context_name
-                        {
-                            Some(call_info)
-                        } else if recursive {
-                            pop_call_info_for_line(line, state, recursive)
-                        } else {
-                            store_call_info(&call_info, state);
-                            None
+    loop {
+        let forin_state = get_core_sub_state_for_command(state, FORIN_STATE_KEY.to_string());
+        let call_info_stack = get_list(CALL_STACK_STATE_KEY.to_string(), forin_state);
+
+        match call_info_stack.pop() {
+            Some(state_value) => match state_value {
+                StateValue::SubState(mut call_info_state) => {
+                    match deserialize_call_info(&mut call_info_state) {
+                        Some(call_info) => {
+                            if (call_info.meta_info.start == line
+                                || call_info.meta_info.end == line)
+                                && call_info.line_context_name == line_context_name
+                            {
+                                return Some(call_info);
+                            } else if !recursive {
+                                store_call_info(&call_info, state);
+                                return None;
+                            }
                         }
+                        None => return None,
                     }
-                    None => None,
                 }
-            }
-            _ => pop_call_info_for_line(line, state, recursive),
-        },
-        None => None,
+                _ => (),
+            },
+            None => return None,
+        }
     }
 }
 
